@@ -129,21 +129,16 @@ Print Assumptions C01_scrip_padding_refuted.
 
 (* ---- Exodus ---- *)
 Theorem C01_exodus_single_block : forall n w faces, c01_wf_faces n w faces ->
-  c01_exodus [c01_exo_enc_block w faces] = c01_std w faces.
+  c01_exodus w [c01_exo_enc_block w faces] = c01_std w faces.
 Proof. exact c01_exodus_single_block. Qed.
 Print Assumptions C01_exodus_single_block.
 
-Theorem C01_exodus_multi_block_refuted :
-  exists b1 b2, c01_wf_faces 5 4 (b1 ++ b2) /\
-    c01_exodus [c01_exo_enc_block 4 b1; c01_exo_enc_block 3 b2] <> c01_std 4 (b1 ++ b2).
-Proof. exact c01_exodus_multi_block_refuted. Qed.
-Print Assumptions C01_exodus_multi_block_refuted.
-
-Theorem C01_exodus_fixed_faces : forall n w (blocks : list (nat * list (list Z))),
+(* several element blocks (was C01_exodus_multi_block_refuted before fix 5ac9d665): every block, in order *)
+Theorem C01_exodus_faces : forall n w (blocks : list (nat * list (list Z))),
   Forall (fun b => (fst b <= w)%nat /\ c01_wf_faces n (fst b) (snd b)) blocks ->
-  c01_exodus_fixed w (map (fun b => c01_exo_enc_block (fst b) (snd b)) blocks) = c01_std w (concat (map snd blocks)).
-Proof. exact c01_exodus_fixed_faces. Qed.
-Print Assumptions C01_exodus_fixed_faces.
+  c01_exodus w (map (fun b => c01_exo_enc_block (fst b) (snd b)) blocks) = c01_std w (concat (map snd blocks)).
+Proof. exact c01_exodus_faces. Qed.
+Print Assumptions C01_exodus_faces.
 
 (* was C01_exodus_coords_refuted before fix db0d5f5d *)
 Theorem C01_exodus_coords : forall (b : bool) (cx cy cz : list Z), c01_exodus_coords b cx cy cz = (cx, cy, cz).
